@@ -592,6 +592,10 @@ EbErrorType svt_release_object(EbObjectWrapper *object_ptr) {
     object_ptr->live_count = (object_ptr->live_count == 0) ? object_ptr->live_count
                                                            : object_ptr->live_count - 1;
 
+#ifdef SVT_AV1_VERIF
+    SVT_VERIF_EVENT(SVT_VERIF_EV_SRM_RELEASE, object_ptr->system_resource_ptr, object_ptr, object_ptr->live_count,
+                    (object_ptr->release_enable == EB_TRUE) && (object_ptr->live_count == 0));
+#endif
     if ((object_ptr->release_enable == EB_TRUE) && (object_ptr->live_count == 0)) {
         // Set live_count to EB_ObjectWrapperReleasedValue
         object_ptr->live_count = EB_ObjectWrapperReleasedValue;
@@ -600,9 +604,6 @@ EbErrorType svt_release_object(EbObjectWrapper *object_ptr) {
                                            object_ptr);
     }
 
-#ifdef SVT_AV1_VERIF
-    SVT_VERIF_EVENT(SVT_VERIF_EV_SRM_RELEASE, object_ptr->system_resource_ptr, object_ptr, object_ptr->live_count, object_ptr->live_count == EB_ObjectWrapperReleasedValue);
-#endif
     svt_release_mutex(object_ptr->system_resource_ptr->empty_queue->lockout_mutex);
 
     return return_error;
